@@ -10,7 +10,9 @@
 (*   class "e" (empty body)          <<P>>                                 *)
 (*   class "s" (1-byte varint)       <<P, B1, B2>>                         *)
 (*   class "l" (2-byte varint)       <<P1, P2, B1, B2>>                    *)
-(*   class "x" (4-byte varint, fills the size limit) <<P1, P2, B1, B2>>    *)
+(*   class "x" (padded so that the whole stream has a chosen total size:   *)
+(*              around every power of two from 64 KiB to 8 MiB and around  *)
+(*              the codec's size limit)                <<P1, P2, B1, B2>>  *)
 (* (prefix bytes, first part of the body, rest of the body; the harness    *)
 (* picks the concrete split point inside the body at random).  Garbage is  *)
 (* two tokens <<G1, G2>> that never form a frame.  The stream is the       *)
@@ -34,6 +36,9 @@ CONSTANTS Classes,     \* frame classes in use
           MaxCuts,     \* chunk boundaries per stream
           Garbage      \* garbage kinds in use ("none" always)
 
+CONSTANTS Sizes,       \* size targets for streams whose last frame is of class "x" (see SizeNames)
+          FullOnly     \* TRUE: only complete streams ending by EOF (the expensive size rounds)
+
 VARIABLES cfg, delivered, phase, result
 vars == <<cfg, delivered, phase, result>>
 
@@ -45,9 +50,26 @@ StreamLen(fs, g) == EndPos(fs, Len(fs)) + GTok(g)
 \* number of frames lying completely within the first d tokens
 CompleteFrames(fs, d) == Cardinality({i \in 1..Len(fs) : EndPos(fs, i) <= d})
 
+\* a frame of class "x" is padded so that the whole stream has the target size; it is the last frame
+XLast(f) == \A i \in 1..(Len(f) - 1) : f[i] # "x"
 FrameLists(mode) ==
     IF mode = "req" THEN {<<>>} \cup {<<c>> : c \in Classes}
-    ELSE UNION {[1..k -> Classes] : k \in 0..MaxFrames}
+    ELSE {f \in UNION {[1..k -> Classes] : k \in 0..MaxFrames} : XLast(f)}
+
+(* Size targets: total length of the written stream in bytes.  "pN", "pN-1", "pN+1" = 2^N, 2^N -+ 1  *)
+(* (N = 16..23: 64 KiB .. 8 MiB, the sizes around which a growing read buffer changes), "lim-1",   *)
+(* "lim", "lim+1" around the codec's size limit (1024 B for a request, 10 MiB for a response list). *)
+(* A stream fits iff its size is at most the limit of its direction.                                *)
+PowNames == UNION {{"p16", "p17", "p18", "p19", "p20", "p21", "p22", "p23"},
+                   {"p16-1", "p17-1", "p18-1", "p19-1", "p20-1", "p21-1", "p22-1", "p23-1"},
+                   {"p16+1", "p17+1", "p18+1", "p19+1", "p20+1", "p21+1", "p22+1", "p23+1"}}
+SizeNames == PowNames \cup {"lim-1", "lim", "lim+1"}
+Fits(mode, sz) == sz = "na" \/ sz \in {"lim-1", "lim"} \/ (mode = "resp" /\ sz \in PowNames)
+SizesOf(f) == IF f # <<>> /\ f[Len(f)] = "x" THEN Sizes ELSE {"na"}
+\* a stream that does not fit is cut by the reader inside its last ("x") frame
+Oversize(c) == ~Fits(c.mode, c.size)
+CF(c, d) == LET k == CompleteFrames(c.frames, d)
+            IN IF Oversize(c) /\ k = Len(c.frames) THEN k - 1 ELSE k
 
 RECURSIVE SubsetsUpTo(_, _)
 SubsetsUpTo(S, k) == IF k = 0 THEN {{}}
@@ -60,11 +82,12 @@ IsConfig(c) ==
     /\ Cardinality(c.cuts) <= MaxCuts
     /\ \A p \in c.cuts : 1 <= p /\ p < c.trunc
     /\ c.end \in {"eof", "stall"}
+    /\ c.size \in SizesOf(c.frames) /\ Sizes \subseteq SizeNames
 
 Err == 0   \* result: 0 = error, k > 0 = Ok(first k frames)
 
 Parse(c, d) ==
-    LET k == CompleteFrames(c.frames, d) IN
+    LET k == CF(c, d) IN
     IF c.mode = "req" THEN (IF k >= 1 THEN 1 ELSE Err) ELSE k
 
 NextStop(c, d) == LET later == {p \in c.cuts \cup {c.trunc} : p > d}
@@ -72,8 +95,10 @@ NextStop(c, d) == LET later == {p \in c.cuts \cup {c.trunc} : p > d}
 
 Init == /\ \E m \in {"req", "resp"} : \E f \in FrameLists(m) : \E g \in Garbage :
              /\ (f = <<>> => g # "none")
-             /\ \E t \in 0..StreamLen(f, g) : \E cs \in SubsetsUpTo(1..(t - 1), MaxCuts) : \E e \in {"eof", "stall"} :
-                    cfg = [mode |-> m, frames |-> f, garbage |-> g, cuts |-> cs, trunc |-> t, end |-> e]
+             /\ \E t \in (IF FullOnly THEN {StreamLen(f, g)} ELSE 0..StreamLen(f, g)) :
+                \E cs \in SubsetsUpTo(1..(t - 1), MaxCuts) : \E e \in (IF FullOnly THEN {"eof"} ELSE {"eof", "stall"}) :
+                \E sz \in SizesOf(f) :
+                    cfg = [mode |-> m, frames |-> f, garbage |-> g, cuts |-> cs, trunc |-> t, end |-> e, size |-> sz]
         /\ delivered = 0 /\ phase = "reading" /\ result = Err
 ReadChunk == /\ phase = "reading" /\ delivered < cfg.trunc
              /\ delivered' = NextStop(cfg, delivered)
@@ -86,14 +111,14 @@ Next == ReadChunk \/ EndOfStream
 Spec == Init /\ [][Next]_vars
 
 (* ---- property layer ---- *)
-Clean(c) == c.trunc = StreamLen(c.frames, c.garbage) /\ c.garbage = "none"
+Clean(c) == c.trunc = StreamLen(c.frames, c.garbage) /\ c.garbage = "none" /\ ~Oversize(c)
 \* "exact": the written value; "err": an error; "prefix": an error or Ok of 1..K complete frames
 Must(c) ==
     IF Clean(c) THEN "exact"
-    ELSE IF CompleteFrames(c.frames, c.trunc) = 0 THEN "err"
+    ELSE IF CF(c, c.trunc) = 0 THEN "err"
     ELSE "prefix"
-K(c) == IF c.mode = "req" THEN (IF CompleteFrames(c.frames, c.trunc) >= 1 THEN 1 ELSE 0)
-        ELSE CompleteFrames(c.frames, c.trunc)
+K(c) == IF c.mode = "req" THEN (IF CF(c, c.trunc) >= 1 THEN 1 ELSE 0)
+        ELSE CF(c, c.trunc)
 
 Allowed(c, r) ==
     CASE Must(c) = "exact"  -> r = Len(c.frames)
